@@ -565,6 +565,17 @@ class Typestate(object):
             return {'<': v < c, '>': v > c, '<=': v <= c, '>=': v >= c, '==': v == c, '!=': v != c}[op]
 
         def ed(node, lab, s):
+            if node.kind == 'sw':
+                # `switch (x) { case v: ... default: ... }` refines like the chain `x == v` / `x != v1 && x != v2 ...`
+                if isinstance(lab, tuple) and lab[0] == 'case' and lab[1] is not None:
+                    return ed_cmp(node, '==', node.x, lab[1], True, s)
+                if lab == 'default':
+                    for (t2, l2) in node.succ:
+                        if isinstance(l2, tuple) and l2[0] == 'case' and l2[1] is not None:
+                            s = ed_cmp(node, '!=', node.x, l2[1], True, s)
+                            if s is None:
+                                return None
+                return s
             if node.kind != 'br' or lab not in (True, False):
                 return s
             cv = const_eval(node.x, env)
@@ -576,6 +587,9 @@ class Typestate(object):
             if cl is None:
                 return s
             op, e, c = cl
+            return ed_cmp(node, op, e, c, lab, s)
+
+        def ed_cmp(node, op, e, c, lab, s):
             e0 = strip(e)
             fld = _last_field(e0)
             if fld is not None and handles.is_handle(fld):
